@@ -1,8 +1,783 @@
-/- helper lemmas for C02 -/
+/-
+Helper lemmas for C02 (normalisation is a fixpoint).
+
+Plan of the structural part:
+* `pT/pF/pI`: the projector written directly on built trees (`project_pF`: ids play no role);
+* `GoodL dir gs` / `NestD d (asDocs gs)`: a class of rendered block lists which, read again and
+  built at fuel `fuel`, are reproduced by the projector at depth `d` (`fixSpec`, induction on the
+  builder's fuel in the style of `Outline.nestSpec`);
+* `NFL f`: what the builder guarantees about its forest (`nfSpec`);
+* `good_pF`: the rendering of an `NFL` forest whose references round-trip is `GoodL`;
+* `ok_L`: `GoodL` blocks are in the class on which the builder is total (`Sections.totSpec`).
+-/
 import IweModel.Spec.NormalForm
 import IweModel.Lemmas.Tokens
 import IweModel.Lemmas.Outline
 
 namespace Iwe
+namespace Fixpoint
+open NormalForm Outline
 
+/-! ## the projector on built trees (ids play no role) -/
+
+def firstIsLeafB : List BTree → Bool
+  | BTree.mk n _ _ :: _ => n.isLeaf
+  | [] => false
+
+mutual
+def pT (dir : String) (lvl : Nat) : BTree → List GBlock
+  | .mk n _ cs =>
+    match n with
+    | .document _ => pF dir lvl cs
+    | .sect xs => .header (lvl + 1) xs :: pF dir (lvl + 1) cs
+    | .quote => [.quote (pF dir 0 cs)]
+    | .blist => [.blist (pI dir cs)]
+    | .olist => [.olist (pI dir cs)]
+    | .leaf xs => [.para xs]
+    | .raw l c => [.code l c]
+    | .rule => [.rule]
+    | .ref key text t => [Project.refPara dir key text t]
+    | .table h a r => [.table h a r]
+def pF (dir : String) (lvl : Nat) : List BTree → List GBlock
+  | [] => []
+  | t :: ts => pT dir lvl t ++ pF dir lvl ts
+def pI (dir : String) : List BTree → List (List GBlock)
+  | [] => []
+  | .mk n _ cs :: ts =>
+    ((if firstIsLeafB cs then GBlock.para (Project.nodeInlines n) else GBlock.plain (Project.nodeInlines n))
+      :: pF dir 0 cs) :: pI dir ts
+end
+
+theorem firstIsLeaf_withIds (b : Nat) (cs : List BTree) :
+    Project.firstIsLeaf (forestWithIds id b cs) = firstIsLeafB cs := by
+  cases cs with
+  | nil => simp [forestWithIds, Project.firstIsLeaf, firstIsLeafB]
+  | cons t ts => cases t; simp [forestWithIds, treeWithIds, Project.firstIsLeaf, firstIsLeafB]
+
+mutual
+theorem project_pT (dir : String) : ∀ (t : BTree) (lvl b : Nat),
+    Project.tree dir lvl (treeWithIds id b t) = pT dir lvl t
+  | .mk n lr cs, lvl, b => by
+    cases n <;> simp [treeWithIds, Project.tree, pT, project_pF dir cs, project_pI dir cs]
+theorem project_pF (dir : String) : ∀ (ts : List BTree) (lvl b : Nat),
+    Project.forest dir lvl (forestWithIds id b ts) = pF dir lvl ts
+  | [], lvl, b => by simp [forestWithIds, Project.forest, pF]
+  | t :: ts, lvl, b => by
+    simp [forestWithIds, Project.forest, pF, project_pT dir t, project_pF dir ts]
+theorem project_pI (dir : String) : ∀ (ts : List BTree) (b : Nat),
+    Project.items dir (forestWithIds id b ts) = pI dir ts
+  | [], b => by simp [forestWithIds, Project.items, pI]
+  | .mk n lr cs :: ts, b => by
+    simp only [forestWithIds, treeWithIds, Project.items, pI, id]
+    rw [project_pI dir ts, project_pF dir cs, firstIsLeaf_withIds]
+end
+
+theorem blocksOf_eq (dir : String) (f : List BTree) : blocksOf dir f = pF dir 0 f :=
+  project_pF dir f 0 1
+
+/-- heading levels of `pF` are deeper than `lvl` and well-nested after anything `≥ lvl` -/
+def Nest (d : Nat) (gs : List GBlock) : Prop :=
+  wellNested d (levelsG gs) = true ∧ ∀ l ∈ levelsG gs, d + 1 ≤ l
+
+theorem nest_pF (dir : String) (d : Nat) (f : List BTree) : Nest d (pF dir d f) := by
+  rw [← project_pF dir f d 0]
+  obtain ⟨h1, h2⟩ := levels_forest dir (forestWithIds id 0 f) d
+  exact ⟨h2 d (Nat.le_refl _), h1⟩
+
+/-! ## rendered blocks that are reproduced -/
+
+/-- the item's first child would be built as a leaf -/
+def leafHead : List GBlock → Bool
+  | .para xs :: _ => (Sections.paraRef xs).isNone
+  | _ => false
+
+/-- a paragraph that is a block reference is rendered back as itself -/
+def paraOk (dir : String) (xs : Inlines) : Prop :=
+  match Sections.paraRef xs with
+  | none => True
+  | some (url, text, t) => Project.refPara dir (keyFromRel url dir) text t = .para xs
+
+mutual
+def GoodB (dir : String) : GBlock → Prop
+  | .plain _ => False
+  | .para xs => paraOk dir xs
+  | .quote bs => GoodL dir bs ∧ Nest 0 bs
+  | .blist its => its ≠ [] ∧ GoodI dir its
+  | .olist its => its ≠ [] ∧ GoodI dir its
+  | _ => True
+def GoodL (dir : String) : List GBlock → Prop
+  | [] => True
+  | b :: bs => GoodB dir b ∧ GoodL dir bs
+def GoodI (dir : String) : List (List GBlock) → Prop
+  | [] => True
+  | [] :: _ => False
+  | (hd :: rest) :: its =>
+    (match hd with
+     | .para _ => leafHead rest = true
+     | .plain _ => leafHead rest = false
+     | _ => False) ∧ GoodL dir rest ∧ Nest 0 rest ∧ GoodI dir its
+end
+
+/-! ## `asDocs` and list operations -/
+
+theorem asDocs_append : ∀ (a b : List GBlock), asDocs (a ++ b) = asDocs a ++ asDocs b
+  | [], b => by simp [asDocs]
+  | x :: a, b => by simp [asDocs, asDocs_append a b]
+
+theorem asDocs_takeWhile (p : DBlock → Bool) : ∀ gs : List GBlock,
+    (asDocs gs).takeWhile p = asDocs (gs.takeWhile fun g => p (asDoc g))
+  | [] => by simp [asDocs]
+  | g :: gs => by
+    simp only [asDocs, List.takeWhile_cons]
+    split <;> simp [asDocs, asDocs_takeWhile p gs]
+
+theorem asDocs_dropWhile (p : DBlock → Bool) : ∀ gs : List GBlock,
+    (asDocs gs).dropWhile p = asDocs (gs.dropWhile fun g => p (asDoc g))
+  | [] => by simp [asDocs]
+  | g :: gs => by
+    simp only [asDocs, List.dropWhile_cons]
+    split <;> simp [asDocs, asDocs_dropWhile p gs]
+
+theorem levelsD_asDocs : ∀ gs : List GBlock, levelsD (asDocs gs) = levelsG gs
+  | [] => by simp [asDocs, levelsD, levelsG]
+  | g :: gs => by cases g <;> simp [asDocs, asDoc, levelsD, levelsG, levelsD_asDocs gs]
+
+theorem goodL_append (dir : String) : ∀ (a b : List GBlock), GoodL dir (a ++ b) ↔ GoodL dir a ∧ GoodL dir b
+  | [], b => by simp [GoodL]
+  | x :: a, b => by simp [GoodL, goodL_append dir a b, and_assoc]
+
+theorem goodL_split (dir : String) (p : GBlock → Bool) (gs : List GBlock) (h : GoodL dir gs) :
+    GoodL dir (gs.takeWhile p) ∧ GoodL dir (gs.dropWhile p) := by
+  rw [← goodL_append, List.takeWhile_append_dropWhile]; exact h
+
+theorem pF_append (dir : String) (d : Nat) : ∀ (a b : List BTree), pF dir d (a ++ b) = pF dir d a ++ pF dir d b
+  | [], b => by simp [pF]
+  | x :: a, b => by simp [pF, pF_append dir d a b]
+
+theorem pI_append (dir : String) : ∀ (a b : List BTree), pI dir (a ++ b) = pI dir a ++ pI dir b
+  | [], b => by simp [pI]
+  | .mk n lr cs :: a, b => by simp [pI, pI_append dir a b]
+
+/-! ## nesting of reader blocks -/
+
+def NestD (d : Nat) (bs : List DBlock) : Prop :=
+  wellNested d (levelsD bs) = true ∧ ∀ l ∈ levelsD bs, d + 1 ≤ l
+
+theorem nest_iff (d : Nat) (gs : List GBlock) : Nest d gs ↔ NestD d (asDocs gs) := by
+  simp [Nest, NestD, levelsD_asDocs]
+
+theorem nestD_cons_not_header {d : Nat} {b : DBlock} {bs : List DBlock} (hb : Sections.isHeader b = false)
+    (h : NestD d (b :: bs)) : NestD d bs := by
+  unfold NestD at h ⊢
+  rwa [levelsD_cons_not_header hb] at h
+
+theorem nestD_header_level {d : Nat} {lr : LineRange} {l' : Nat} {xs : Inlines} {bs : List DBlock}
+    (h : NestD d (DBlock.header lr l' xs :: bs)) : l' = d + 1 := by
+  obtain ⟨hw, hall⟩ := h
+  simp only [levelsD, wellNested_cons] at hw
+  have := hall l' (by simp [levelsD])
+  omega
+
+theorem nestD_split {d l : Nat} {lr : LineRange} {l' : Nat} {xs : Inlines} {rest : List DBlock}
+    (hl : l = d + 1) (h : NestD d (DBlock.header lr l' xs :: rest)) :
+    NestD (d + 1) (rest.takeWhile fun x => !Sections.closes l x)
+    ∧ NestD d (rest.dropWhile fun x => !Sections.closes l x) := by
+  have hl' := nestD_header_level h
+  obtain ⟨hw, hall⟩ := h
+  subst hl'
+  simp only [levelsD, wellNested_cons] at hw
+  have hsplit := levelsD_split (fun x => !Sections.closes l x) rest
+  have hw2 := hw.2.2
+  rw [← hsplit] at hw2
+  refine ⟨⟨wellNested_prefix _ _ _ hw2, ?_⟩, ⟨?_, ?_⟩⟩
+  · intro x hx; have := levelsD_takeWhile_gt l rest x hx; omega
+  · rcases dropWhile_closes_cases l rest with h | ⟨lr2, l2, xs2, t, h, hle⟩
+    · simp [h, levelsD, wellNested]
+    · rw [h, levelsD] at hw2 ⊢
+      obtain ⟨h1, h2⟩ := wellNested_suffix _ _ _ _ hw2
+      rw [wellNested_cons]
+      exact ⟨h1, by omega, h2⟩
+  · intro x hx
+    exact hall x (by rw [levelsD, ← hsplit]; simp [hx])
+
+/-! ## re-reading rendered blocks reproduces them -/
+
+theorem firstIsLeaf_blocks (fuel : Nat) (dir : String) (w : Bool) (gs : List GBlock) (cs : List BTree)
+    (hok : Sections.blocks fuel dir w (asDocs gs) = .ok cs) (hg : GoodL dir gs) :
+    firstIsLeafB cs = leafHead gs := by
+  cases fuel with
+  | zero => simp [Sections.blocks] at hok
+  | succ fuel =>
+    cases gs with
+    | nil => simp [asDocs, Sections.blocks] at hok; subst hok; simp [firstIsLeafB, leafHead]
+    | cons g rest =>
+      simp only [asDocs, Sections.blocks] at hok
+      split at hok
+      · next hh =>
+        cases g <;> simp [asDoc, Sections.isHeader] at hh
+        cases fuel with
+        | zero => simp [Sections.sects] at hok
+        | succ fuel =>
+          simp only [asDoc, Sections.sects] at hok
+          split at hok
+          · simp at hok
+          · split at hok
+            · simp at hok
+            · simp at hok; subst hok; simp [firstIsLeafB, leafHead, Node.isLeaf]
+      · cases hb : Sections.block fuel dir w (asDoc g) with
+        | error e => simp [hb] at hok
+        | ok t =>
+          cases hr : Sections.blocks fuel dir w (asDocs rest) with
+          | error e => simp [hb, hr] at hok
+          | ok ts =>
+            simp [hb, hr] at hok
+            subst hok
+            cases fuel with
+            | zero => simp [Sections.block] at hb
+            | succ fuel =>
+              cases g with
+              | plain xs => simp [GoodL, GoodB] at hg
+              | para xs =>
+                simp only [asDoc, Sections.block] at hb
+                cases hp : Sections.paraRef xs with
+                | none => simp [hp] at hb; subst hb; simp [firstIsLeafB, leafHead, Node.isLeaf, hp]
+                | some v =>
+                  obtain ⟨url, text, ty⟩ := v
+                  simp [hp] at hb; subst hb; simp [firstIsLeafB, leafHead, Node.isLeaf, hp]
+              | header l xs => simp [asDoc, Sections.block] at hb
+              | code l c => simp [asDoc, Sections.block] at hb; subst hb; simp [firstIsLeafB, leafHead, Node.isLeaf]
+              | rule => simp [asDoc, Sections.block] at hb; subst hb; simp [firstIsLeafB, leafHead, Node.isLeaf]
+              | table h a r => simp [asDoc, Sections.block] at hb; subst hb; simp [firstIsLeafB, leafHead, Node.isLeaf]
+              | quote bs =>
+                simp only [asDoc, Sections.block] at hb
+                split at hb <;> simp at hb
+                subst hb; simp [firstIsLeafB, leafHead, Node.isLeaf]
+              | blist its =>
+                simp only [asDoc, Sections.block] at hb
+                split at hb <;> simp at hb
+                subst hb; simp [firstIsLeafB, leafHead, Node.isLeaf]
+              | olist its =>
+                simp only [asDoc, Sections.block] at hb
+                split at hb <;> simp at hb
+                subst hb; simp [firstIsLeafB, leafHead, Node.isLeaf]
+
+def FixSpec (fuel : Nat) : Prop :=
+  (∀ dir w gs r d, Sections.blocks fuel dir w (asDocs gs) = .ok r → GoodL dir gs → NestD d (asDocs gs) →
+      pF dir d r = gs)
+  ∧ (∀ dir w l gs r d, Sections.sects fuel dir w l (asDocs gs) = .ok r → l = d + 1 → GoodL dir gs →
+      NestD d (asDocs gs) → pF dir d r = gs)
+  ∧ (∀ dir w g t d, Sections.block fuel dir w (asDoc g) = .ok t → GoodB dir g → pT dir d t = [g])
+  ∧ (∀ dir w it r, Sections.item fuel dir w (asDocs it) = .ok r → GoodI dir [it] → pI dir r = [it])
+  ∧ (∀ dir w its r, Sections.items fuel dir w (asDocItems its) = .ok r → GoodI dir its → pI dir r = its)
+
+theorem fixSpec_zero : FixSpec 0 := by
+  refine ⟨?_, ?_, ?_, ?_, ?_⟩ <;> intros <;>
+    simp_all [Sections.blocks, Sections.sects, Sections.block, Sections.item, Sections.items]
+
+theorem fix_blocks {fuel : Nat} (ih : FixSpec fuel) (dir : String) (w : Bool) (gs : List GBlock) (r : List BTree)
+    (d : Nat) (hok : Sections.blocks (fuel + 1) dir w (asDocs gs) = .ok r) (hg : GoodL dir gs)
+    (hn : NestD d (asDocs gs)) : pF dir d r = gs := by
+  obtain ⟨ihB, ihS, ihb, _, _⟩ := ih
+  cases gs with
+  | nil => simp [asDocs, Sections.blocks] at hok; subst hok; simp [pF]
+  | cons g rest =>
+    simp only [asDocs, Sections.blocks] at hok
+    split at hok
+    · next hh =>
+      refine ihS dir w _ (g :: rest) r d (by simpa only [asDocs] using hok) ?_ hg hn
+      cases g <;> simp [asDoc, Sections.isHeader] at hh
+      simp only [asDocs, asDoc] at hn
+      simpa [asDoc, Sections.headerLevel] using nestD_header_level hn
+    · next hh =>
+      have hh' : Sections.isHeader (asDoc g) = false := by simpa using hh
+      simp only [asDocs] at hn
+      have hn' := nestD_cons_not_header hh' hn
+      cases hb : Sections.block fuel dir w (asDoc g) with
+      | error e => simp [hb] at hok
+      | ok t =>
+        cases hr : Sections.blocks fuel dir w (asDocs rest) with
+        | error e => simp [hb, hr] at hok
+        | ok ts =>
+          simp [hb, hr] at hok
+          subst hok
+          simp only [GoodL] at hg
+          simp [pF, ihb _ _ _ _ d hb hg.1, ihB _ _ _ _ d hr hg.2 hn']
+
+theorem fix_sects {fuel : Nat} (ih : FixSpec fuel) (dir : String) (w : Bool) (l : Nat) (gs : List GBlock)
+    (r : List BTree) (d : Nat) (hok : Sections.sects (fuel + 1) dir w l (asDocs gs) = .ok r) (hl : l = d + 1)
+    (hg : GoodL dir gs) (hn : NestD d (asDocs gs)) : pF dir d r = gs := by
+  obtain ⟨ihB, ihS, _, _, _⟩ := ih
+  cases gs with
+  | nil => simp [asDocs, Sections.sects] at hok; subst hok; simp [pF]
+  | cons g rest =>
+    cases g with
+    | header l' xs =>
+      simp only [asDocs, asDoc] at hok hn
+      have hl' := nestD_header_level hn
+      obtain ⟨n1, n2⟩ := nestD_split hl hn
+      simp only [Sections.sects] at hok
+      rw [asDocs_takeWhile] at hok n1
+      rw [asDocs_dropWhile] at hok n2
+      simp only [GoodL] at hg
+      obtain ⟨g1, g2⟩ := goodL_split dir (fun g => !Sections.closes l (asDoc g)) rest hg.2
+      cases hb : Sections.blocks fuel dir w (asDocs (rest.takeWhile fun g => !Sections.closes l (asDoc g))) with
+      | error e => simp [hb] at hok
+      | ok cs =>
+        cases hr : Sections.sects fuel dir w l (asDocs (rest.dropWhile fun g => !Sections.closes l (asDoc g))) with
+        | error e => simp [hb, hr] at hok
+        | ok ts =>
+          simp [hb, hr] at hok
+          subst hok
+          simp only [pF, pT, ihB _ _ _ _ (d + 1) hb g1 n1, ihS _ _ _ _ _ d hr hl g2 n2, hl']
+          simp [List.takeWhile_append_dropWhile]
+    | _ => simp [asDocs, asDoc, Sections.sects] at hok
+
+theorem fix_block {fuel : Nat} (ih : FixSpec fuel) (dir : String) (w : Bool) (g : GBlock) (t : BTree) (d : Nat)
+    (hok : Sections.block (fuel + 1) dir w (asDoc g) = .ok t) (hg : GoodB dir g) : pT dir d t = [g] := by
+  obtain ⟨ihB, _, _, _, ihI⟩ := ih
+  cases g with
+  | plain xs => simp [GoodB] at hg
+  | para xs =>
+    simp only [asDoc, Sections.block] at hok
+    simp only [GoodB, paraOk] at hg
+    cases hp : Sections.paraRef xs with
+    | none => simp [hp] at hok; subst hok; simp [pT]
+    | some v =>
+      obtain ⟨url, text, ty⟩ := v
+      simp [hp] at hok hg; subst hok; simp [pT, hg]
+  | code l c => simp [asDoc, Sections.block] at hok; subst hok; simp [pT]
+  | rule => simp [asDoc, Sections.block] at hok; subst hok; simp [pT]
+  | table h a rows => simp [asDoc, Sections.block] at hok; subst hok; simp [pT]
+  | header l xs => simp [asDoc, Sections.block] at hok
+  | quote bs =>
+    simp only [asDoc, Sections.block] at hok
+    simp only [GoodB] at hg
+    cases hr : Sections.blocks fuel dir false (asDocs bs) with
+    | error e => simp [hr] at hok
+    | ok cs =>
+      simp [hr] at hok; subst hok
+      simp [pT, ihB _ _ _ _ 0 hr hg.1 ((nest_iff 0 bs).1 hg.2)]
+  | blist its =>
+    simp only [asDoc, Sections.block] at hok
+    simp only [GoodB] at hg
+    cases hr : Sections.items fuel dir w (asDocItems its) with
+    | error e => simp [hr] at hok
+    | ok cs =>
+      cases cs with
+      | nil => simp [hr] at hok
+      | cons c cs =>
+        simp [hr] at hok; subst hok
+        simp [pT, ihI _ _ _ _ hr hg.2]
+  | olist its =>
+    simp only [asDoc, Sections.block] at hok
+    simp only [GoodB] at hg
+    cases hr : Sections.items fuel dir w (asDocItems its) with
+    | error e => simp [hr] at hok
+    | ok cs =>
+      cases cs with
+      | nil => simp [hr] at hok
+      | cons c cs =>
+        simp [hr] at hok; subst hok
+        simp [pT, ihI _ _ _ _ hr hg.2]
+
+theorem fix_item {fuel : Nat} (ih : FixSpec fuel) (dir : String) (w : Bool) (it : List GBlock) (r : List BTree)
+    (hok : Sections.item (fuel + 1) dir w (asDocs it) = .ok r) (hg : GoodI dir [it]) : pI dir r = [it] := by
+  obtain ⟨ihB, _, _, _, _⟩ := ih
+  cases it with
+  | nil => simp [GoodI] at hg
+  | cons hd rest =>
+    simp only [GoodI] at hg
+    obtain ⟨h1, h2, h3, _⟩ := hg
+    cases hd with
+    | para xs =>
+      simp only [asDocs, asDoc, Sections.item] at hok
+      cases hr : Sections.blocks fuel dir w (asDocs rest) with
+      | error e => simp [hr] at hok
+      | ok cs =>
+        simp [hr] at hok; subst hok
+        simp at h1
+        simp [pI, Project.nodeInlines, ihB _ _ _ _ 0 hr h2 ((nest_iff 0 rest).1 h3),
+          firstIsLeaf_blocks _ _ _ _ _ hr h2, h1]
+    | plain xs =>
+      simp only [asDocs, asDoc, Sections.item] at hok
+      cases hr : Sections.blocks fuel dir w (asDocs rest) with
+      | error e => simp [hr] at hok
+      | ok cs =>
+        simp [hr] at hok; subst hok
+        simp at h1
+        simp [pI, Project.nodeInlines, ihB _ _ _ _ 0 hr h2 ((nest_iff 0 rest).1 h3),
+          firstIsLeaf_blocks _ _ _ _ _ hr h2, h1]
+    | _ => simp at h1
+
+theorem goodI_cons (dir : String) (it : List GBlock) (its : List (List GBlock)) :
+    GoodI dir (it :: its) ↔ GoodI dir [it] ∧ GoodI dir its := by
+  cases it with
+  | nil => simp [GoodI]
+  | cons hd rest => simp [GoodI, and_assoc]
+
+theorem fix_items {fuel : Nat} (ih : FixSpec fuel) (dir : String) (w : Bool) (its : List (List GBlock))
+    (r : List BTree) (hok : Sections.items (fuel + 1) dir w (asDocItems its) = .ok r) (hg : GoodI dir its) :
+    pI dir r = its := by
+  obtain ⟨_, _, _, ihi, ihI⟩ := ih
+  cases its with
+  | nil => simp [asDocItems, Sections.items] at hok; subst hok; simp [pI]
+  | cons it its =>
+    simp only [asDocItems, Sections.items] at hok
+    rw [goodI_cons] at hg
+    cases hr : Sections.item fuel dir w (asDocs it) with
+    | error e => simp [hr] at hok
+    | ok ts =>
+      cases hs : Sections.items fuel dir w (asDocItems its) with
+      | error e => simp [hr, hs] at hok
+      | ok us =>
+        simp [hr, hs] at hok; subst hok
+        rw [pI_append, ihi _ _ _ _ hr hg.1, ihI _ _ _ _ hs hg.2]; rfl
+
+theorem fixSpec : ∀ fuel, FixSpec fuel
+  | 0 => fixSpec_zero
+  | fuel + 1 =>
+    have ih := fixSpec fuel
+    ⟨fix_blocks ih, fix_sects ih, fix_block ih, fix_item ih, fix_items ih⟩
+
+/-! ## the normal form of built forests -/
+
+mutual
+/-- what the section builder guarantees about its forest: a leaf is never a lone reference link,
+a list node has at least one child, there is no inner document node -/
+def NF : BTree → Prop
+  | .mk n _ cs =>
+    (match n with
+     | .document _ => False
+     | .leaf xs => Sections.paraRef xs = none
+     | .blist => cs ≠ []
+     | .olist => cs ≠ []
+     | _ => True) ∧ NFL cs
+def NFL : List BTree → Prop
+  | [] => True
+  | t :: ts => NF t ∧ NFL ts
+end
+
+theorem nfl_append : ∀ (a b : List BTree), NFL (a ++ b) ↔ NFL a ∧ NFL b
+  | [], b => by simp [NFL]
+  | x :: a, b => by simp [NFL, nfl_append a b, and_assoc]
+
+def NFSpec (fuel : Nat) : Prop :=
+  (∀ dir w bs r, Sections.blocks fuel dir w bs = .ok r → Tok.itemsOkL bs = true → NFL r)
+  ∧ (∀ dir w l bs r, Sections.sects fuel dir w l bs = .ok r → Tok.itemsOkL bs = true → NFL r)
+  ∧ (∀ dir w b t, Sections.block fuel dir w b = .ok t → Tok.itemsOk b = true → NF t)
+  ∧ (∀ dir w it r, Sections.item fuel dir w it = .ok r → Tok.itemsOkI [it] = true → NFL r)
+  ∧ (∀ dir w its r, Sections.items fuel dir w its = .ok r → Tok.itemsOkI its = true → NFL r)
+
+theorem nfSpec_zero : NFSpec 0 := by
+  refine ⟨?_, ?_, ?_, ?_, ?_⟩ <;> intros <;>
+    simp_all [Sections.blocks, Sections.sects, Sections.block, Sections.item, Sections.items]
+
+open Tok in
+theorem nf_blocks {fuel : Nat} (ih : NFSpec fuel) (dir : String) (w : Bool) (bs : List DBlock) (r : List BTree)
+    (hok : Sections.blocks (fuel + 1) dir w bs = .ok r) (hi : itemsOkL bs = true) : NFL r := by
+  obtain ⟨ihB, ihS, ihb, _, _⟩ := ih
+  cases bs with
+  | nil => simp [Sections.blocks] at hok; subst hok; simp [NFL]
+  | cons b rest =>
+    simp only [Sections.blocks] at hok
+    split at hok
+    · exact ihS _ _ _ _ _ hok hi
+    · simp only [itemsOkL, Bool.and_eq_true] at hi
+      cases hb : Sections.block fuel dir w b with
+      | error e => simp [hb] at hok
+      | ok t =>
+        cases hr : Sections.blocks fuel dir w rest with
+        | error e => simp [hb, hr] at hok
+        | ok ts =>
+          simp [hb, hr] at hok
+          subst hok
+          exact ⟨ihb _ _ _ _ hb hi.1, ihB _ _ _ _ hr hi.2⟩
+
+open Tok in
+theorem nf_sects {fuel : Nat} (ih : NFSpec fuel) (dir : String) (w : Bool) (l : Nat) (bs : List DBlock)
+    (r : List BTree) (hok : Sections.sects (fuel + 1) dir w l bs = .ok r) (hi : itemsOkL bs = true) : NFL r := by
+  obtain ⟨ihB, ihS, _, _, _⟩ := ih
+  cases bs with
+  | nil => simp [Sections.sects] at hok; subst hok; simp [NFL]
+  | cons b rest =>
+    simp only [itemsOkL, Bool.and_eq_true] at hi
+    obtain ⟨h1, h2⟩ := itemsOkL_split (fun x => !Sections.closes l x) rest hi.2
+    cases b with
+    | header lr l' xs =>
+      simp only [Sections.sects] at hok
+      cases hb : Sections.blocks fuel dir w (rest.takeWhile fun x => !Sections.closes l x) with
+      | error e => simp [hb] at hok
+      | ok cs =>
+        cases hr : Sections.sects fuel dir w l (rest.dropWhile fun x => !Sections.closes l x) with
+        | error e => simp [hb, hr] at hok
+        | ok ts =>
+          simp [hb, hr] at hok
+          subst hok
+          exact ⟨⟨trivial, ihB _ _ _ _ hb h1⟩, ihS _ _ _ _ _ hr h2⟩
+    | _ => simp [Sections.sects] at hok
+
+open Tok in
+theorem nf_block {fuel : Nat} (ih : NFSpec fuel) (dir : String) (w : Bool) (b : DBlock) (t : BTree)
+    (hok : Sections.block (fuel + 1) dir w b = .ok t) (hi : itemsOk b = true) : NF t := by
+  obtain ⟨ihB, _, _, _, ihI⟩ := ih
+  cases b with
+  | code lr lang text => simp [Sections.block] at hok; subst hok; simp [NF, NFL]
+  | para lr xs =>
+    simp only [Sections.block] at hok
+    cases hp : Sections.paraRef xs with
+    | none => simp [hp] at hok; subst hok; simp [NF, NFL, hp]
+    | some v =>
+      obtain ⟨url, text, ty⟩ := v
+      simp [hp] at hok; subst hok; simp [NF, NFL]
+  | blist its =>
+    simp only [Sections.block] at hok
+    simp only [itemsOk] at hi
+    cases hr : Sections.items fuel dir w its with
+    | error e => simp [hr] at hok
+    | ok cs =>
+      cases cs with
+      | nil => simp [hr] at hok
+      | cons c cs =>
+        simp [hr] at hok; subst hok
+        exact ⟨by simp, ihI _ _ _ _ hr hi⟩
+  | olist its =>
+    simp only [Sections.block] at hok
+    simp only [itemsOk] at hi
+    cases hr : Sections.items fuel dir w its with
+    | error e => simp [hr] at hok
+    | ok cs =>
+      cases cs with
+      | nil => simp [hr] at hok
+      | cons c cs =>
+        simp [hr] at hok; subst hok
+        exact ⟨by simp, ihI _ _ _ _ hr hi⟩
+  | quote lr bs =>
+    simp only [Sections.block] at hok
+    simp only [itemsOk] at hi
+    cases hr : Sections.blocks fuel dir false bs with
+    | error e => simp [hr] at hok
+    | ok cs =>
+      simp [hr] at hok; subst hok
+      exact ⟨trivial, ihB _ _ _ _ hr hi⟩
+  | rule lr => simp [Sections.block] at hok; subst hok; simp [NF, NFL]
+  | header lr l xs => simp [Sections.block] at hok
+  | table lr h al rows => simp [Sections.block] at hok; subst hok; simp [NF, NFL]
+
+open Tok in
+theorem nf_item {fuel : Nat} (ih : NFSpec fuel) (dir : String) (w : Bool) (it : List DBlock) (r : List BTree)
+    (hok : Sections.item (fuel + 1) dir w it = .ok r) (hi : itemsOkI [it] = true) : NFL r := by
+  obtain ⟨ihB, _, _, _, _⟩ := ih
+  cases it with
+  | nil => simp [Sections.item] at hok; subst hok; simp [NFL]
+  | cons b rest =>
+    cases b with
+    | para lr xs =>
+      simp only [Sections.item] at hok
+      simp [itemsOkI] at hi
+      cases hr : Sections.blocks fuel dir w rest with
+      | error e => simp [hr] at hok
+      | ok cs =>
+        simp [hr] at hok; subst hok
+        exact ⟨⟨trivial, ihB _ _ _ _ hr hi⟩, trivial⟩
+    | header lr l xs =>
+      simp only [Sections.item] at hok
+      simp [itemsOkI] at hi
+      cases hr : Sections.blocks fuel dir w rest with
+      | error e => simp [hr] at hok
+      | ok cs =>
+        simp [hr] at hok; subst hok
+        exact ⟨⟨trivial, ihB _ _ _ _ hr hi⟩, trivial⟩
+    | _ => simp [itemsOkI] at hi
+
+open Tok in
+theorem nf_items {fuel : Nat} (ih : NFSpec fuel) (dir : String) (w : Bool) (its : List (List DBlock))
+    (r : List BTree) (hok : Sections.items (fuel + 1) dir w its = .ok r) (hi : itemsOkI its = true) : NFL r := by
+  obtain ⟨_, _, _, ihi, ihI⟩ := ih
+  cases its with
+  | nil => simp [Sections.items] at hok; subst hok; simp [NFL]
+  | cons it its =>
+    simp only [Sections.items] at hok
+    rw [itemsOkI_cons, Bool.and_eq_true] at hi
+    cases hr : Sections.item fuel dir w it with
+    | error e => simp [hr] at hok
+    | ok ts =>
+      cases hs : Sections.items fuel dir w its with
+      | error e => simp [hr, hs] at hok
+      | ok us =>
+        simp [hr, hs] at hok; subst hok
+        exact (nfl_append _ _).2 ⟨ihi _ _ _ _ hr hi.1, ihI _ _ _ _ hs hi.2⟩
+
+theorem nfSpec : ∀ fuel, NFSpec fuel
+  | 0 => nfSpec_zero
+  | fuel + 1 =>
+    have ih := nfSpec fuel
+    ⟨nf_blocks ih, nf_sects ih, nf_block ih, nf_item ih, nf_items ih⟩
+
+/-! ## the rendering of a normal-form forest is `Good` -/
+
+theorem paraOk_refPara (dir k text : String) (t : LinkType)
+    (h1 : keyFromRel (keyToRel k dir) dir = k) (h2 : isRefUrl (keyToRel k dir) = true) :
+    ∃ xs, Project.refPara dir k text t = .para xs ∧ paraOk dir xs ∧ (Sections.paraRef xs).isNone = false := by
+  cases t <;> simp [Project.refPara, paraOk, Sections.paraRef, h1, h2, Inline.plainTexts, Inline.plainText]
+
+theorem leafHead_pF (dir : String) (d : Nat) (cs : List BTree) (hn : NFL cs) (hr : refsRoundTripL dir cs = true) :
+    leafHead (pF dir d cs) = firstIsLeafB cs := by
+  cases cs with
+  | nil => simp [pF, leafHead, firstIsLeafB]
+  | cons t ts =>
+    obtain ⟨n, lr, cs⟩ := t
+    simp only [NFL, NF] at hn
+    simp only [refsRoundTripL, refsRoundTrip, Bool.and_eq_true] at hr
+    cases n with
+    | document k => exact hn.1.1.elim
+    | leaf xs => simp [pF, pT, leafHead, firstIsLeafB, Node.isLeaf, hn.1.1]
+    | ref k text t =>
+      simp only [Bool.and_eq_true, beq_iff_eq] at hr
+      obtain ⟨xs, e, _, h⟩ := paraOk_refPara dir k text t hr.1.1.1 hr.1.1.2
+      simp [pF, pT, e, leafHead, firstIsLeafB, Node.isLeaf, h]
+    | _ => simp [pF, pT, leafHead, firstIsLeafB, Node.isLeaf]
+
+mutual
+theorem good_pT (dir : String) : ∀ (t : BTree) (d : Nat), NF t → refsRoundTrip dir t = true →
+    GoodL dir (pT dir d t)
+  | .mk n lr cs, d, hn, hr => by
+    simp only [NF] at hn
+    simp only [refsRoundTrip, Bool.and_eq_true] at hr
+    cases n with
+    | document k => exact hn.1.elim
+    | sect xs => exact ⟨trivial, good_pF dir cs (d + 1) hn.2 hr.2⟩
+    | quote =>
+      exact ⟨⟨good_pF dir cs 0 hn.2 hr.2, nest_pF dir 0 cs⟩, trivial⟩
+    | blist =>
+      refine ⟨⟨?_, good_pI dir cs hn.2 hr.2⟩, trivial⟩
+      cases cs with
+      | nil => exact absurd rfl hn.1
+      | cons c cs => cases c; simp [pI]
+    | olist =>
+      refine ⟨⟨?_, good_pI dir cs hn.2 hr.2⟩, trivial⟩
+      cases cs with
+      | nil => exact absurd rfl hn.1
+      | cons c cs => cases c; simp [pI]
+    | leaf xs => simp [pT, GoodL, GoodB, paraOk, hn.1]
+    | raw l c => simp [pT, GoodL, GoodB]
+    | rule => simp [pT, GoodL, GoodB]
+    | ref k text t =>
+      simp only [Bool.and_eq_true, beq_iff_eq] at hr
+      obtain ⟨xs, e, h, _⟩ := paraOk_refPara dir k text t hr.1.1 hr.1.2
+      simp [pT, e, GoodL, GoodB, h]
+    | table h a r => simp [pT, GoodL, GoodB]
+theorem good_pF (dir : String) : ∀ (ts : List BTree) (d : Nat), NFL ts → refsRoundTripL dir ts = true →
+    GoodL dir (pF dir d ts)
+  | [], d, _, _ => by simp [pF, GoodL]
+  | t :: ts, d, hn, hr => by
+    simp only [refsRoundTripL, Bool.and_eq_true] at hr
+    simp only [pF]
+    exact (goodL_append dir _ _).2 ⟨good_pT dir t d hn.1 hr.1, good_pF dir ts d hn.2 hr.2⟩
+theorem good_pI (dir : String) : ∀ (ts : List BTree), NFL ts → refsRoundTripL dir ts = true →
+    GoodI dir (pI dir ts)
+  | [], _, _ => by simp [pI, GoodI]
+  | .mk n lr cs :: ts, hn, hr => by
+    simp only [refsRoundTripL, refsRoundTrip, Bool.and_eq_true] at hr
+    simp only [NFL, NF] at hn
+    simp only [pI]
+    rw [goodI_cons]
+    refine ⟨?_, good_pI dir ts hn.2 hr.2⟩
+    have hl := leafHead_pF dir 0 cs hn.1.2 hr.1.2
+    refine ⟨?_, good_pF dir cs 0 hn.1.2 hr.1.2, nest_pF dir 0 cs, trivial⟩
+    cases hf : firstIsLeafB cs <;> simp [hf] at hl ⊢ <;> exact hl
+end
+
+/-! ## rendered blocks are in the class on which the builder is total -/
+
+mutual
+theorem ok_B (dir : String) : ∀ g : GBlock, GoodB dir g →
+    Tok.itemsOk (asDoc g) = true ∧ Tok.listsNonEmpty (asDoc g) = true
+  | .plain xs, h => by simp [GoodB] at h
+  | .para xs, _ => by simp [asDoc, Tok.itemsOk, Tok.listsNonEmpty]
+  | .code l c, _ => by simp [asDoc, Tok.itemsOk, Tok.listsNonEmpty]
+  | .header l xs, _ => by simp [asDoc, Tok.itemsOk, Tok.listsNonEmpty]
+  | .rule, _ => by simp [asDoc, Tok.itemsOk, Tok.listsNonEmpty]
+  | .table h a r, _ => by simp [asDoc, Tok.itemsOk, Tok.listsNonEmpty]
+  | .quote bs, h => by
+    simp only [GoodB] at h
+    simpa [asDoc, Tok.itemsOk, Tok.listsNonEmpty] using ok_L dir bs h.1
+  | .blist its, h => by
+    simp only [GoodB] at h
+    obtain ⟨h1, h2, h3⟩ := ok_I dir its h.2
+    simp [asDoc, Tok.itemsOk, Tok.listsNonEmpty, h1, h2, h3 h.1]
+  | .olist its, h => by
+    simp only [GoodB] at h
+    obtain ⟨h1, h2, h3⟩ := ok_I dir its h.2
+    simp [asDoc, Tok.itemsOk, Tok.listsNonEmpty, h1, h2, h3 h.1]
+theorem ok_L (dir : String) : ∀ gs : List GBlock, GoodL dir gs →
+    Tok.itemsOkL (asDocs gs) = true ∧ Tok.listsNonEmptyL (asDocs gs) = true
+  | [], _ => by simp [asDocs, Tok.itemsOkL, Tok.listsNonEmptyL]
+  | g :: gs, h => by
+    simp only [GoodL] at h
+    obtain ⟨h1, h2⟩ := ok_B dir g h.1
+    obtain ⟨h3, h4⟩ := ok_L dir gs h.2
+    simp [asDocs, Tok.itemsOkL, Tok.listsNonEmptyL, h1, h2, h3, h4]
+theorem ok_I (dir : String) : ∀ its : List (List GBlock), GoodI dir its →
+    Tok.itemsOkI (asDocItems its) = true ∧ Tok.listsNonEmptyI (asDocItems its) = true
+    ∧ (its ≠ [] → (asDocItems its).any (fun it => !it.isEmpty) = true)
+  | [], _ => by simp [asDocItems, Tok.itemsOkI, Tok.listsNonEmptyI]
+  | [] :: its, h => by simp [GoodI] at h
+  | (hd :: rest) :: its, h => by
+    simp only [GoodI] at h
+    obtain ⟨h0, h1, _, h2⟩ := h
+    obtain ⟨a1, a2⟩ := ok_L dir rest h1
+    obtain ⟨b1, b2, _⟩ := ok_I dir its h2
+    cases hd <;> simp at h0 <;>
+      simp [asDocItems, asDocs, asDoc, Tok.itemsOkI, Tok.listsNonEmptyI, Tok.listsNonEmptyL, Tok.listsNonEmpty,
+        a1, a2, b1, b2]
+end
+
+/-! ## the fixpoint -/
+
+theorem fixpoint (dir : String) (bs : List DBlock) (f : List BTree)
+    (hok : Sections.forest dir bs = .ok f) (hitems : Tok.itemsOkL bs = true)
+    (hrefs : refsRoundTripL dir f = true) :
+    ∃ f', Sections.forest dir (asDocs (blocksOf dir f)) = .ok f' ∧ blocksOf dir f' = blocksOf dir f := by
+  have hnf : NFL f := (nfSpec _).1 dir true bs f hok hitems
+  have hgood : GoodL dir (pF dir 0 f) := good_pF dir f 0 hnf hrefs
+  have hnest := (nest_iff 0 _).1 (nest_pF dir 0 f)
+  obtain ⟨hi, hl⟩ := ok_L dir _ hgood
+  rw [blocksOf_eq]
+  obtain ⟨f', hf'⟩ := (Sections.totSpec (Sections.fuelFor (asDocs (pF dir 0 f)))).1 dir true
+    (asDocs (pF dir 0 f)) (by unfold Sections.fuelFor; omega) hi hl
+  refine ⟨f', hf', ?_⟩
+  rw [blocksOf_eq]
+  exact (fixSpec _).1 dir true _ f' 0 hf' hgood hnest
+
+
+/-! ## inline normalisation, marker arithmetic -/
+
+theorem rep_length (c : Char) (n : Nat) : (Render.rep c n).length = n := by
+  simp [Render.rep]
+
+mutual
+theorem normalize_idem (title : String → Option String) : ∀ x : Inline,
+    Inline.normalize title (Inline.normalize title x) = Inline.normalize title x
+  | .str s => by simp [Inline.normalize]
+  | .code s => by simp [Inline.normalize]
+  | .math s => by simp [Inline.normalize]
+  | .image u t xs => by simp [Inline.normalize]
+  | .emph xs => by simp [Inline.normalize, normalizeL_idem title xs]
+  | .strong xs => by simp [Inline.normalize, normalizeL_idem title xs]
+  | .strikeout xs => by simp [Inline.normalize, normalizeL_idem title xs]
+  | .link url t ty xs => by
+    by_cases h : isRefUrl url = true
+    · cases ty with
+      | regular =>
+        cases ht : title (keyFromFileName url) <;> simp [Inline.normalize, h, ht]
+      | wiki => simp [Inline.normalize, h]
+      | wikiPiped => simp [Inline.normalize, h]
+    · simp [Inline.normalize, h]
+theorem normalizeL_idem (title : String → Option String) : ∀ xs : List Inline,
+    Inline.normalizeL title (Inline.normalizeL title xs) = Inline.normalizeL title xs
+  | [] => by simp [Inline.normalizeL]
+  | x :: xs => by simp [Inline.normalizeL, normalize_idem title x, normalizeL_idem title xs]
+end
+
+end Fixpoint
 end Iwe
